@@ -48,10 +48,20 @@ int kindFromName(const char* s);
 
 enum { PH_SETUP = 0, PH_BODY = 1, PH_TEARDOWN = 2, PH_PRE = 3, PH_POST = 4, PH_PROC = 5 };
 enum { N_SLOTS = 48, N_TARGETS = 8, N_VALUES = 6, MAX_SET = 32 };
-enum { N_PASS_KINDS = 14, N_FAILCPP_KINDS = 28, N_FAILC_KINDS = 20 };
+enum { N_PASS_KINDS = 14, N_FAILCPP_KINDS = 29, N_FAILC_KINDS = 20 };
 // Operand pairs for the string comparisons of K_FAIL_CPP kinds 24..27 (b = pair): the operands differ first at index 'at'. Several pairs differ only in
 // bytes whose printed forms coincide (every byte above 0x7f is rendered alike), contain control characters, are empty or long.
 struct OperandPair { const char* expected; const char* actual; int at; };
+// Operands for the bit comparison of K_FAIL_CPP kind 28 (b = case): width in bytes, expected, actual, mask
+struct BitsCase { int bytes; unsigned long expected, actual, mask; };
+enum { N_BITS_CASES = 12 };
+inline const BitsCase& bitsCase(int64_t i) {
+    static const BitsCase t[N_BITS_CASES] = {
+        { 1, 0x80UL, 0x00UL, 0xffUL }, { 2, 0x8000UL, 0x0000UL, 0xffffUL }, { 4, 0x80000000UL, 0UL, 0xffffffffUL }, { 8, 0x8000000000000000UL, 0UL, ~0UL },
+        { 1, 0xa5UL, 0x5aUL, 0xf0UL }, { 2, 0xa5a5UL, 0x5a5aUL, 0xf0f0UL }, { 4, 0xa5a5a5a5UL, 0x5a5a5a5aUL, 0xf0f0f0f0UL }, { 8, 0xa5a5a5a5a5a5a5a5UL, 0x5a5a5a5a5a5a5a5aUL, 0xf0f0f0f0f0f0f0f0UL },
+        { 1, 1UL, 0UL, 1UL }, { 2, 0x0100UL, 0UL, 0x0100UL }, { 4, 0x00010000UL, 0UL, 0x00ff0000UL }, { 8, 0x0000000100000000UL, 0UL, 0x000000ff00000000UL } };
+    return t[(size_t)(i < 0 ? 0 : i) % N_BITS_CASES];
+}
 enum { N_OPERAND_PAIRS = 10 };
 inline const OperandPair& operandPair(int64_t i) {
     static char longA[400], longB[400]; static bool init = false;
